@@ -183,6 +183,14 @@ func refHeaderBlock(r *refReq, s []byte, pos int) (fields []field, next int, ok 
 	for {
 		line, nx, term := refLine(s, pos)
 		if term == "eof" {
+			if len(lines) == 0 && len(line) > 0 && isOWS(line[0]) {
+				// informational (names the finding if such a request is accepted)
+				if len(trimOWS(string(line))) == 0 {
+					r.note("first-line-ws-only")
+				} else {
+					r.note("first-line-ws")
+				}
+			}
 			return nil, len(s), false
 		}
 		if term == "lf" {
